@@ -179,7 +179,8 @@ fn main() {
         // engineered documents (vnd::extra): length prefixes whose low bytes are zero (BCF l_shared = 256 / 512 /
         // 65536, l_indiv = 256, BAM block_size = 256 / 512, n_no_coor = 256, a CRAM container length that is a
         // multiple of 256), so that a reader decoding a zero-padded partial prefix as "0 = end of file" is exposed
-        docs.extend(vnd::extra(ctx.thorough()).into_iter().filter(|d| d.name.starts_with("eng-")));
+        // ... and documents with a single record larger than a BGZF block (`big-*`, cut like the other big documents)
+        docs.extend(vnd::extra(ctx.thorough()).into_iter().filter(|d| d.name.starts_with("eng-") || (d.name.starts_with("big-") && !d.raw)));
         ctx.rule("every byte offset 0..=len of every corpus document in scope (BGZF, BAM, BCF, CRAM, SAM.gz, VCF.gz, BAI, CSI, tabix, gzi, fai, crai) x reader API; the three > 64 KiB documents at every offset within 64 bytes of a block boundary plus every 251st byte; raw BAM / BCF / CSI / tabix streams at every uncompressed offset; BGZF payload through read(4096) / fill_buf / read_to_end / read(64 KiB) / read(128 KiB) / read_exact(7); distinct = distinct (document, prefix log) pairs");
         ctx.assume("the log of the complete file (read by the same sync reader) equals what was written (decided by C05-C10)");
         ctx.assume("CRAM documents differ byte-wise between processes (std RandomState in the CRAM writer): a replay by index addresses the same offset of a structurally identical document");
@@ -299,16 +300,36 @@ fn main() {
         // ------------------------------------------------------------------ (b) raw record / index streams
         let mut raw_rows: Vec<Row> = Vec::new();
         for (i, d) in docs.iter().enumerate() {
-            if !matches!(d.format, Format::Bam | Format::Bcf | Format::Csi | Format::Tbi) || d.big {
+            if !matches!(d.format, Format::Bam | Format::Bcf | Format::Csi | Format::Tbi) || (d.big && !d.name.starts_with("big-")) {
                 continue;
             }
             let inner = d.inner.as_ref().unwrap();
+            // big-record documents: every offset within 64 bytes of the header end / a record end, every 251st byte
+            let raw_cut_list: Vec<usize> = if d.big {
+                let len = inner.bytes.len();
+                let mut v: Vec<usize> = (0..=len).step_by(251).collect();
+                for b in std::iter::once(inner.header_end).chain(inner.record_ends.iter().copied()).chain([0, len]) {
+                    for dd in 0..=64usize {
+                        if b + dd <= len {
+                            v.push(b + dd);
+                        }
+                        if b >= dd {
+                            v.push(b - dd);
+                        }
+                    }
+                }
+                v.sort_unstable();
+                v.dedup();
+                v
+            } else {
+                (0..=inner.bytes.len()).collect()
+            };
             for &api in Api::all_for(d.format) {
                 let spec = match d.format {
                     Format::Bam | Format::Bcf => vnd::read_log(d.format, &inner.bytes[..], &Opts::for_doc(d).api(api).raw(true).len(inner.bytes.len())),
                     _ => vnd::read_log(d.format, &d.bytes[..], &Opts::for_doc(d).api(api)),
                 };
-                raw_rows.push(Row { doc: i, api, cuts: (0..=inner.bytes.len()).collect(), spec });
+                raw_rows.push(Row { doc: i, api, cuts: raw_cut_list.clone(), spec });
             }
         }
         let (raw_starts, raw_total) = starts_of(&raw_rows);
